@@ -197,7 +197,9 @@ def run(R):
             for o in res.outcomes:
                 syms = [s_ for c_, ss in C.lin_paths(o) for s_ in ss]
                 ok = o.kind == "return" and len(syms) == 1 and syms[0].ev.trait == C.IFACE and syms[0].ev.method == rec["name"] \
-                    and isinstance(o.value, SymV) and o.value.name == syms[0].ev.ret.name
+                    and ((isinstance(o.value, SymV) and o.value.name == syms[0].ev.ret.name)
+                         or (isinstance(o.value, Agg) and o.value.name == "core::result::Result" and isinstance(syms[0].ev.ret, SymV)
+                             and all((isinstance(x, SymV) and x.name.startswith(syms[0].ev.ret.name + "@")) or repr(x) == "()" for x in o.value.fields)))
                 if ok:
                     ev = syms[0].ev
                     nparams = int(rec["body"]["arg_count"])
